@@ -209,7 +209,7 @@ func (d *dt1) events(b *cfg.Block) (ev []string, term string) {
 				case strings.HasSuffix(name, "(*field).join") && len(m.Args) == 2:
 					a := ast.Unparen(m.Args[0])
 					switch {
-					case exprStr(a) == "pe.Name.Value":
+					case d.isPeNameValue(a):
 						ev = append(ev, "NAME")
 					case isItoaOrDigits(d.info, a):
 						ev = append(ev, "LEN")
@@ -223,7 +223,7 @@ func (d *dt1) events(b *cfg.Block) (ev []string, term string) {
 				switch {
 				case isNilIdent(d.info, r):
 					term = "OK"
-				case isIdentNamed(r, "err"):
+				case isErrVar(d.info, r):
 					term = "PROPAGATE"
 				default:
 					if cl, ok := r.(*ast.CompositeLit); ok && strings.HasSuffix(namedTypeName(d.info.Types[cl].Type), "ParamExpError") {
@@ -286,9 +286,13 @@ func identOf(e ast.Expr) *ast.Ident {
 	return id
 }
 
-func isIdentNamed(e ast.Expr, name string) bool {
+func isErrVar(info *types.Info, e ast.Expr) bool {
 	id, ok := e.(*ast.Ident)
-	return ok && id.Name == name
+	if !ok {
+		return false
+	}
+	v, ok := info.Uses[id].(*types.Var)
+	return ok && isErrorType(v.Type())
 }
 
 func isItoaOrDigits(info *types.Info, e ast.Expr) bool {
@@ -544,4 +548,13 @@ func evKey(ev map[string]bool) string {
 	}
 	sort.Strings(ks)
 	return strings.Join(ks, "+")
+}
+
+// isPeNameValue recognises pe.Name.Value whatever the parameter is called.
+func (d *dt1) isPeNameValue(e ast.Expr) bool {
+	se, ok := ast.Unparen(e).(*ast.SelectorExpr)
+	if !ok || se.Sel.Name != "Value" {
+		return false
+	}
+	return d.isPeField(se.X, "Name")
 }
